@@ -114,18 +114,26 @@ type Inst struct {
 // View is one sdkmetric.NewView(criteria, mask). All given criteria must
 // hold; a view without any criterion matches nothing (documented).
 type View struct {
-	NameMode int      `json:"name_mode"`
-	Target   int      `json:"target"`  // nmExact: instrument index
-	Pattern  string   `json:"pattern"` // nmPattern
-	ByKind   bool     `json:"by_kind"` // criteria.Kind = Kind
-	Kind     int      `json:"kind"`
-	ByUnit   bool     `json:"by_unit"` // criteria.Unit = "By"
-	Rename   string   `json:"rename"`  // mask.Name, "" = keep the instrument's name
-	Unit     string   `json:"unit"`    // mask.Unit, "" = keep the instrument's unit
-	Agg      int      `json:"agg"`
-	Bounds   int      `json:"bounds"` // vaHist: index into boundsTable
-	Filter   int      `json:"filter"` // 0 none, 1 allow keys, 2 deny keys
-	Keys     []string `json:"keys"`
+	NameMode int    `json:"name_mode"`
+	Target   int    `json:"target"`  // nmExact: instrument index
+	Pattern  string `json:"pattern"` // nmPattern
+	ByKind   bool   `json:"by_kind"` // criteria.Kind = Kind
+	Kind     int    `json:"kind"`
+	ByUnit   bool   `json:"by_unit"` // criteria.Unit = "By"
+	Rename   string `json:"rename"`  // mask.Name, "" = keep the instrument's name
+	Unit     string `json:"unit"`    // mask.Unit, "" = keep the instrument's unit
+	Agg      int    `json:"agg"`
+	Bounds   int    `json:"bounds"` // vaHist: index into boundsTable
+	// Filter: 0 none, 1 allow Keys, 2 deny Keys; value-dependent filters
+	// (hand-written attribute.Filter functions deciding on key AND value):
+	// 3 a key mentioned in FKV is kept only with one of the listed values,
+	//   other keys are kept unless in Keys;
+	// 4 everything is kept except the (key, value) pairs of FKV and the Keys;
+	// 5 a key in Keys is kept only when its value has type FType, other keys are kept.
+	Filter int      `json:"filter"`
+	Keys   []string `json:"keys"`
+	FKV    []vk.KV  `json:"fkv,omitempty"`
+	FType  string   `json:"ftype,omitempty"` // BOOL, INT64, STRING
 	// Incompat: Agg is deliberately INCOMPATIBLE with the (synchronous)
 	// instruments this view matches (last-value for a non-gauge, sum for a
 	// gauge). The SDK rejects exactly that (view, instrument) pair and reports
@@ -282,7 +290,22 @@ func normalize(c Case) Case {
 		v.Agg = ((v.Agg % nViewAggs) + nViewAggs) % nViewAggs
 		v.Bounds = ((v.Bounds % len(boundsTable)) + len(boundsTable)) % len(boundsTable)
 		v.Kind = ((v.Kind % nKinds) + nKinds) % nKinds
-		v.Filter = ((v.Filter % 3) + 3) % 3
+		v.Filter = ((v.Filter % 6) + 6) % 6
+		if v.Filter == 3 || v.Filter == 4 {
+			v.FKV = append([]vk.KV{}, v.FKV...)
+			if len(v.FKV) == 0 {
+				v.FKV = nil
+			}
+		} else {
+			v.FKV = nil
+		}
+		if v.Filter == 5 {
+			if v.FType != "BOOL" && v.FType != "STRING" {
+				v.FType = "INT64"
+			}
+		} else {
+			v.FType = ""
+		}
 		if v.Target < 0 || v.Target >= len(o.Insts) {
 			v.Target = 0
 		}
@@ -581,10 +604,58 @@ func genFilter(t *rapid.T, v *View) {
 		v.Filter, v.Keys = 2, []string{"a", "b", "zz"}
 		return
 	}
+	if rapid.IntRange(0, 1).Draw(t, "value_filter") == 0 {
+		genValueFilter(t, v)
+		return
+	}
 	v.Filter = rapid.IntRange(1, 2).Draw(t, "fmode")
 	ks := rapid.SliceOfNDistinct(rapid.SampledFrom(filterKeys), 0, 3, func(s string) string { return s }).Draw(t, "fkeys")
 	sort.Strings(ks)
 	v.Keys = ks
+}
+
+// the (key, value) pairs that occur in the pools
+var filterPairs = []vk.KV{
+	{K: "a", T: "int", I: 0}, {K: "a", T: "int", I: 1}, {K: "a", T: "int", I: 2}, {K: "a", T: "int", I: 3}, {K: "a", T: "int", I: 4},
+	{K: "b", T: "str", S: "x"}, {K: "b", T: "str", S: "y"}, {K: "b", T: "str", S: "z"},
+	{K: "c", T: "bool", B: true}, {K: "c", T: "bool", B: false},
+	{K: overflowAttr, T: "bool", B: true}, {K: overflowAttr, T: "bool", B: false}, {K: overflowAttr, T: "str", S: "true"},
+	{K: "zz", T: "int", I: 7}, {K: "zz", T: "int", I: 8}, {K: "zz", T: "int", I: 9},
+}
+
+// genValueFilter draws a filter that decides on key AND value.
+func genValueFilter(t *rapid.T, v *View) {
+	v.Keys = []string{}
+	hi := len(filterPairs) - 1
+	if rapid.IntRange(0, 2).Draw(t, "ab_only") != 0 {
+		hi = 7 // values of a and b: the keys most sets of a pool carry with several values
+	}
+	switch rapid.IntRange(0, 5).Draw(t, "vfshape") {
+	case 0: // one key kept for exactly one value
+		v.Filter = 3
+		v.FKV = []vk.KV{rapid.SampledFrom(filterPairs[:8]).Draw(t, "pair")}
+	case 1, 2: // keys kept for a subset of their values, maybe some keys denied
+		v.Filter = 3
+		idx := rapid.SliceOfNDistinct(rapid.IntRange(0, hi), 1, 4, func(i int) int { return i }).Draw(t, "pairs")
+		sort.Ints(idx)
+		for _, i := range idx {
+			v.FKV = append(v.FKV, filterPairs[i])
+		}
+		if rapid.Bool().Draw(t, "deny_some") {
+			v.Keys = []string{rapid.SampledFrom([]string{"c", "zz", "b"}).Draw(t, "deny")}
+		}
+	case 3, 4: // everything but some (key, value) pairs
+		v.Filter = 4
+		idx := rapid.SliceOfNDistinct(rapid.IntRange(0, hi), 1, 3, func(i int) int { return i }).Draw(t, "pairs")
+		sort.Ints(idx)
+		for _, i := range idx {
+			v.FKV = append(v.FKV, filterPairs[i])
+		}
+	default: // by value type
+		v.Filter = 5
+		v.Keys = []string{rapid.SampledFrom([]string{overflowAttr, overflowAttr, "a", "b"}).Draw(t, "typed_key")}
+		v.FType = rapid.SampledFrom([]string{"BOOL", "STRING", "INT64"}).Draw(t, "ftype")
+	}
 }
 
 var renames = []string{"ren0", "ren1", "ren2", "merged", "MERGED"}
